@@ -138,6 +138,8 @@ type tableView struct {
 	inctf    map[string]string
 	rest     map[string]string
 	compiled string
+	listing  string
+	listSet  string
 }
 
 func viewOf(d *dumper, l *Load, comp []string) tableView {
@@ -162,6 +164,12 @@ func viewOf(d *dumper, l *Load, comp []string) tableView {
 	v.env = fmt.Sprint(d.vars(tf.Env))
 	v.output = tf.Output.Name
 	v.compiled = strings.Join(comp, "\n")
+	var ls, lset []string
+	for _, names := range l.Listings {
+		ls = append(ls, strings.Join(names, ","))
+		lset = append(lset, strings.Join(sortedCopy(names), ","))
+	}
+	v.listing, v.listSet = strings.Join(ls, "|"), strings.Join(lset, "|")
 	return v
 }
 
@@ -209,6 +217,13 @@ func diffClasses(a, b tableView) []string {
 	}
 	if rs {
 		out = append(out, "task-body")
+	}
+	if a.listing != b.listing {
+		if a.listSet == b.listSet {
+			out = append(out, "listing-order")
+		} else {
+			out = append(out, "listing")
+		}
 	}
 	if len(out) == 0 && a.compiled != b.compiled {
 		out = append(out, "compiled-only")
@@ -336,8 +351,12 @@ func Main(args []string) {
 			c := &MergeCase{Mode: mode, Seed: r.Int63(), Index: int(o.Seed%1000)*o.N + i, Files: map[string]string{}}
 			cr := rand.New(rand.NewSource(c.Seed))
 			var gf []*GFile
-			if o.Tier == "thorough" && c.Index < EnumSmallCount {
+			if o.Tier == "thorough" && mode == "c08" && c.Index < EnumSmallCount {
 				gf = EnumSmall(c.Index, cr) // small-scope exhaustive part of the thorough tier
+			} else if o.Tier == "thorough" && mode == "c09" && c.Index%12 == 0 && c.Index/12 < EnumSmallCount {
+				gf = EnumSmall(c.Index/12, cr) // C09: the enumeration takes one index in twelve, the families keep theirs
+			} else if (mode == "c09" && c.Index%12 == 5) || (mode == "c08" && c.Index%10 == 8) {
+				gf = GenerateSharedDir(cr, c.Index/10) // a file included several times with different dir:, nested long-form include without dir:
 			} else if mode == "c09" && c.Index%3 == 1 {
 				gf = GenerateTpl(cr, c.Index/3) // templated nested include paths
 			} else if (mode == "c09" && c.Index%6 == 2) || (mode == "c08" && c.Index%10 == 9) {
@@ -398,7 +417,7 @@ func Main(args []string) {
 		distinct := map[string]int{}
 		var first *Load
 		for k := 0; k < c.Loads; k++ {
-			l := tree.load(d, c.Mode == "c09")
+			l := tree.loadL(d, c.Mode == "c09", true)
 			if l.Panic != "" {
 				obs.ImplFails = append(obs.ImplFails, common.ImplFail{Case: i, Kind: "panic", Msg: "Setup: " + l.Panic})
 			}
@@ -526,7 +545,8 @@ func Main(args []string) {
 		names[k] = fmt.Sprintf("case_%d", k)
 	}
 	fmt.Fprintf(&sb, "Definition cases : list mcase := %s.\n", cg.List(names))
-	results := []string{"R_read", "R_merge", "R_wf", "R_vardir"}
+	results := []string{"R_read", "R_merge", "R_wf", "R_vardir", "R_listing"}
+	sb.WriteString("Definition R_listing := Eval vm_compute in failures mon_listing cases.\nPrint R_listing.\n")
 	sb.WriteString("Definition R_vardir := Eval vm_compute in failures mon_vardir cases.\nPrint R_vardir.\n")
 	sb.WriteString("Definition R_wf := Eval vm_compute in failures wf_case cases.\nPrint R_wf.\n")
 	sb.WriteString("Definition R_read := Eval vm_compute in failures agree_read cases.\nPrint R_read.\n")
@@ -542,7 +562,8 @@ func Main(args []string) {
 	} else {
 		sb.WriteString("Definition R_c09_det := Eval vm_compute in failures mon_c09_det cases.\nPrint R_c09_det.\n")
 		sb.WriteString("Definition R_c09_stable := Eval vm_compute in failures mon_c09_stable cases.\nPrint R_c09_stable.\n")
-		results = append(results, "R_c09_det", "R_c09_stable")
+		sb.WriteString("Definition R_c09_place := Eval vm_compute in failures mon_c09_place cases.\nPrint R_c09_place.\n")
+		results = append(results, "R_c09_det", "R_c09_stable", "R_c09_place")
 	}
 	common.WriteFile(o.Out, "cases.v", sb.String())
 	im := map[string][]int{}
